@@ -98,7 +98,7 @@ def registerNetworkValue(group, name, value):
         if name.lower().startswith(gname) and len(gname) < len(name):
             name = name[len(gname)+1:] # +1 for .
             parts = registry.split(name)
-            if len(parts) == 1 and parts[0] and ircutils.isChannel(parts[0]):
+            if len(parts) == 1 and parts[0] and parts[0].startswith(':'):
                 # This gets the network values so they always persist.
                 g.get(parts[0])()
     return g
@@ -121,6 +121,9 @@ def registerChannelValue(group, name, value, opSettable=True):
                 g.get(parts[0]).get(parts[1])()
             elif len(parts) == 1 and parts[0] and ircutils.isChannel(parts[0]):
                 # Old-style variant of the above, without a network
+                g.get(parts[0])()
+            elif len(parts) == 1 and parts[0] and parts[0].startswith(':'):
+                # This gets the network values so they always persist.
                 g.get(parts[0])()
     return g
 
